@@ -241,3 +241,51 @@ Theorem C20_cleanup_moves_former_path :
   exists d', lookup xk (fix_ws true false [] [xk] xw) = Some (Dir d').
 Proof. exact cleanup_moves_former_path. Qed.
 Print Assumptions C20_cleanup_moves_former_path.
+
+(* ---- interrupted repairs (model/Deprecate.v `interrupted`: every state a kill / a full device can leave while
+   `deprecated list --fix [--cleanup]` runs: the first loop done on a prefix of its entries; the main loop done on a prefix,
+   possibly inside the iteration on the next entry - dangling link removed; link created, result files not yet aliased;
+   result files aliased, directory not yet moved).  No interruption loses job data ...                                  *)
+Open Scope Z_scope.
+Theorem C20_interrupted_preserves_data : forall cl o1 o2 w wi,
+  In wi (interrupted cl o1 o2 w) ->
+  Forall2 (fun d d' => core d = core d' /\ incl (d_done d) (d_done d')) (dirs w) (dirs wi).
+Proof. exact interrupted_preserves_data. Qed.
+Print Assumptions C20_interrupted_preserves_data.
+
+(* ... and AFTER ANY INTERRUPTED REPAIR A SECOND RUN COMPLETES IT: under the hypotheses of C20_fix_reaches (k stored under a
+   former identifier, its new path n free or already linking to it, claimed by no other directory), whatever the mode, the
+   examination orders and the interruption point, the command run again to its end on the interrupted workspace (examining
+   every directory) makes n lead to the data of k, and a re-submit finds the result                                     *)
+Theorem C20_interrupted_then_rerun_reaches : forall cl o1 o2 w k d n wi o1' o2',
+  wf w -> active w k d n ->
+  (lookup n w = None \/ lookup n w = Some (Link k)) ->
+  (forall k2 d2, lookup k2 w = Some (Dir d2) -> d_recomp d2 = Some n -> k2 = k) ->
+  In wi (interrupted cl o1 o2 w) ->
+  (forall y dy, lookup y wi = Some (Dir dy) -> In y o2') ->
+  let w' := fix_ws true cl o1' o2' wi in
+  exists kf d', resolve w' n = Some (kf, d') /\ core d' = core d /\ incl (d_done d) (d_done d') /\
+                (In (k_name k) (d_done d) -> found w' n = true).
+Proof. exact interrupted_then_rerun_reaches. Qed.
+Print Assumptions C20_interrupted_then_rerun_reaches.
+
+(* record: with the order "move the directory, then alias its result files" an interruption in between leaves a renamed
+   task's result invisible for ever (the directory sits under its own identifier: no later run looks at it); with the order
+   of the repaired command every interruption point of that workspace is completed by the next run                      *)
+Theorem C20_moved_first_refuted :
+  In (rename xk xn xw) (partials_moved_first xw xk) /\
+  found (fix_ws true true [xn] [xn] (rename xk xn xw)) xn = false /\
+  forall cl wi, In wi (interrupted cl [xk] [xk] xw) -> found (fix_ws true cl [xk; xn] [xk; xn] wi) xn = true.
+Proof. exact moved_first_refuted. Qed.
+Print Assumptions C20_moved_first_refuted.
+
+(* record: params.json rewritten in place - an interruption leaves a record that cannot be loaded: it is lost (no state of
+   `interrupted` loses it) and no later run repairs the job                                                             *)
+Theorem C20_inplace_write_refuted :
+  let wi := update_dir xk unreadable xw in
+  map core (dirs wi) <> map core (dirs xw) /\
+  (forall cl, ~ In wi (interrupted cl [xk] [xk] xw)) /\
+  forall cl, found (fix_ws true cl [xk] [xk] wi) xn = false.
+Proof. exact inplace_write_refuted. Qed.
+Print Assumptions C20_inplace_write_refuted.
+Close Scope Z_scope.
